@@ -316,3 +316,141 @@ def forward(fn, start_locals, max_iter=50):
                     ch = True
                     break
     return flow
+
+
+def deep_leaves(fn, op, stop_calls=None, seen=None, depth=0):
+    """Backward slice of an operand through *all* calls and compound rvalues.
+    Returns (leaves, crossed): leaves = set of ('arg',n,proj) | ('const','c',proj) | ('fn',path,proj) | ('local',l,proj)
+    | (stop_kind, None, proj) for calls whose callee is a key of stop_calls (value = leaf kind);
+    crossed = set of callee names the slice went through."""
+    leaves = set()
+    crossed = set()
+    if seen is None:
+        seen = set()
+    stop_calls = stop_calls or {}
+    for k, v, p in trace(fn, op):
+        if k == "call":
+            t = fn["bbs"][v]["t"]
+            if ("c", v) in seen or depth > 14:
+                continue
+            seen.add(("c", v))
+            callee = t["callee"] or "<indirect>"
+            crossed.add(callee)
+            if callee in stop_calls:
+                leaves.add((stop_calls[callee], None, p))
+                continue
+            for a in t["args"]:
+                l2, c2 = deep_leaves(fn, a, stop_calls, seen, depth + 1)
+                leaves |= l2
+                crossed |= c2
+            if t.get("fp"):
+                l2, c2 = deep_leaves(fn, t["fp"], stop_calls, seen, depth + 1)
+                leaves |= l2
+                crossed |= c2
+        elif k in ("agg", "bin", "other"):
+            bi, si = v
+            rv = fn["bbs"][bi]["s"][si]["r"]
+            if ("s", bi, si) in seen:
+                continue
+            seen.add(("s", bi, si))
+            if rv["k"] == "agg" and rv.get("ak") == "closure":
+                leaves.add(("closure", rv["n"], p))
+            for a in rv.get("o", []):
+                l2, c2 = deep_leaves(fn, a, stop_calls, seen, depth + 1)
+                leaves |= l2
+                crossed |= c2
+        else:
+            leaves.add((k, v if k != "const" else "c", p))
+    return leaves, crossed
+
+
+def option_edges(fn, call_bi):
+    """For a call whose destination is an Option/ControlFlow-like enum: find the switch on its discriminant.
+    Returns dict {variant_index: (switch_block, target_block)} plus key 'else' or None if not found.
+    Follows goto chains and looks for `discr` of a place rooted at the call's destination (or a ref of it)."""
+    t = fn["bbs"][call_bi]["t"]
+    d = t["dest"]["l"]
+    aliases = {d}
+    b = t["tgt"]
+    hops = 0
+    while b is not None and b >= 0 and hops < 6:
+        bb = fn["bbs"][b]
+        dl = None
+        for s in bb["s"]:
+            r = s["r"]
+            if r["k"] in ("ref", "use") and r["o"] and is_place(r["o"][0]) and r["o"][0]["l"] in aliases and not field_path(r["o"][0]):
+                if not s["d"]["p"]:
+                    aliases.add(s["d"]["l"])
+            if r["k"] == "discr" and r["o"][0]["l"] in aliases and not field_path(r["o"][0]):
+                dl = s["d"]["l"]
+        tt = bb["t"]
+        if dl is not None and tt["k"] == "switch" and is_place(tt["o"]) and tt["o"]["l"] == dl:
+            out = {}
+            for v, tb in tt["tg"]:
+                out[v] = (b, tb)
+            out["else"] = (b, tt["else"])
+            return out
+        if tt["k"] == "goto":
+            b = tt["tgt"]
+            hops += 1
+            continue
+        return None
+    return None
+
+
+def bool_edges(fn, call_bi):
+    """For a call returning bool consumed by a switch: {True: (sw, tgt), False: (sw, tgt)} or None"""
+    t = fn["bbs"][call_bi]["t"]
+    d = t["dest"]["l"]
+    aliases = {d}
+    b = t["tgt"]
+    hops = 0
+    while b is not None and b >= 0 and hops < 6:
+        bb = fn["bbs"][b]
+        for s in bb["s"]:
+            r = s["r"]
+            if r["k"] == "use" and r["o"] and is_place(r["o"][0]) and r["o"][0]["l"] in aliases and not r["o"][0]["p"] and not s["d"]["p"]:
+                aliases.add(s["d"]["l"])
+        tt = bb["t"]
+        if tt["k"] == "switch" and is_place(tt["o"]) and tt["o"]["l"] in aliases:
+            f = [tb for v, tb in tt["tg"] if v == 0]
+            if f:
+                return {False: (b, f[0]), True: (b, tt["else"])}
+            return None
+        if tt["k"] == "goto":
+            b = tt["tgt"]
+            hops += 1
+            continue
+        return None
+    return None
+
+
+def variant_edge(oe, idx, nvariants=2):
+    """edge (switch_block, target) taken for enum variant `idx` given option_edges() output, else None"""
+    if not oe:
+        return None
+    if idx in oe:
+        return oe[idx]
+    listed = [k for k in oe if k != "else"]
+    if len(listed) == nvariants - 1 and idx not in listed:
+        return oe["else"]
+    return None
+
+
+def field_discr_edges(fn, adt, field, variant, nvariants=2):
+    """edges taken when the discriminant of a place whose last field projection is (adt, field) equals `variant`"""
+    out = []
+    for sb, bb in enumerate(fn["bbs"]):
+        tt = bb["t"]
+        if tt["k"] != "switch" or not is_place(tt["o"]):
+            continue
+        for s in bb["s"]:
+            if s["r"]["k"] == "discr" and s["d"]["l"] == tt["o"]["l"]:
+                pf = proj_fields(s["r"]["o"][0])
+                if pf and pf[-1] == (adt, field):
+                    oe = {v: (sb, tb) for v, tb in tt["tg"]}
+                    oe["else"] = (sb, tt["else"])
+                    e = variant_edge(oe, variant, nvariants)
+                    if e:
+                        out.append(e)
+    return out
